@@ -48,27 +48,29 @@ fn staged_of(id: &str, tier: Tier) -> Option<explore::Staged> {
 }
 
 fn replay_case(case: &Value) -> Option<(bool, String)> {
-    Some(match case["kind"].as_str()? {
+    // every case kind starts with the id of the property module that produced it
+    let kind = case["kind"].as_str()?;
+    Some(match kind.get(..3)? {
         "c01" => props::c01::replay(case),
         "c08" => props::c08::replay(case),
         "c02" => props::c02::replay(case),
-        "c03" | "c03alias" | "c03linear" => props::c03::replay(case),
+        "c03" => props::c03::replay(case),
         "c10" => props::c03::replay_c10(case),
-        "c04" | "c04echo" => props::c04::replay(case),
-        "c05" | "c05echo" => props::c04::replay_c05(case),
-        "c06" | "c06echo" => props::c06::replay(case),
+        "c04" => props::c04::replay(case),
+        "c05" => props::c04::replay_c05(case),
+        "c06" => props::c06::replay(case),
         "c18" => props::c18::replay(case),
         "c19" => props::c19::replay(case),
-        "c17" | "c17hsl" | "c17echo" => props::c17::replay(case),
-        "c16yuv" | "c16curve" | "c16prim" | "c16xyb" | "c16hsl" | "c16mixed" => props::c16::replay(case),
-        "c14" | "c14labels" => props::c14::replay(case),
-        "c15res" | "c15rgb" | "c15content" | "c15contentrgb" => props::c15::replay(case),
-        "c12" | "c12float" => props::c12::replay(case),
-        "c07geom" | "c07enc" | "c07curve" | "c07special" => props::c07::replay(case),
-        "c13cube" | "c13strat" | "c13stratcase" | "c13unit" => props::c13::replay(case),
-        "c11dec" | "c11float" | "c11enc" | "c11hist" | "c11histproc" | "c11decseq" => props::c11::replay(case),
+        "c17" => props::c17::replay(case),
+        "c16" => props::c16::replay(case),
+        "c14" => props::c14::replay(case),
+        "c15" => props::c15::replay(case),
+        "c12" => props::c12::replay(case),
+        "c07" => props::c07::replay(case),
+        "c13" => props::c13::replay(case),
+        "c11" => props::c11::replay(case),
         "c09" => props::c09::replay(case),
-        "c20exact" => props::c20::replay(case),
+        "c20" => props::c20::replay(case),
         _ => return None,
     })
 }
